@@ -201,7 +201,6 @@ pub struct Ctx<'a> {
 struct State {
     module: Module,
     cfg: CfgBits,
-    last_emit: Option<Vec<u8>>,
     custom_ids: Vec<walrus::UntypedCustomSectionId>,
     edit_state: edits::EditState,
 }
@@ -426,7 +425,6 @@ fn step(st: &mut State, op: &Op, ctx: &Ctx, idx: usize) -> StepOut {
             let prev = simrt::set_phase(simrt::Phase::Emit);
             let bytes = st.module.emit_wasm();
             simrt::set_phase(prev);
-            st.last_emit = Some(bytes.clone());
             StepOut::Emit { bytes }
         }
         Op::EmitFile { target } => {
@@ -437,11 +435,6 @@ fn step(st: &mut State, op: &Op, ctx: &Ctx, idx: usize) -> StepOut {
                     let file = std::fs::read(&path).ok();
                     if matches!(target, FileTarget::Ok) {
                         let _ = std::fs::remove_file(&path);
-                    }
-                    if let Some(f) = &file {
-                        if matches!(target, FileTarget::Ok) {
-                            st.last_emit = Some(f.clone());
-                        }
                     }
                     StepOut::EmitFile { ok: true, err: String::new(), file: if matches!(target, FileTarget::Ok) { file } else { None } }
                 }
@@ -460,10 +453,9 @@ fn step(st: &mut State, op: &Op, ctx: &Ctx, idx: usize) -> StepOut {
             StepOut::Gc
         }
         Op::Reparse { cfg } => {
-            let bytes = match &st.last_emit {
-                Some(b) => b.clone(),
-                None => st.module.emit_wasm(),
-            };
+            let prev = simrt::set_phase(simrt::Phase::Emit);
+            let bytes = st.module.emit_wasm();
+            simrt::set_phase(prev);
             let (r, calls) = parse_with(&bytes, cfg);
             match r {
                 Ok(m) => {
@@ -471,9 +463,9 @@ fn step(st: &mut State, op: &Op, ctx: &Ctx, idx: usize) -> StepOut {
                     st.cfg = cfg.clone();
                     st.custom_ids = collect_custom_ids(&st.module);
                     st.edit_state = edits::EditState::default();
-                    StepOut::Parsed { ok: true, err: String::new(), on_parse_calls: calls }
+                    StepOut::Reparsed { emitted: bytes, ok: true, err: String::new(), on_parse_calls: calls }
                 }
-                Err(e) => StepOut::Parsed { ok: false, err: e, on_parse_calls: calls },
+                Err(e) => StepOut::Reparsed { emitted: bytes, ok: false, err: e, on_parse_calls: calls },
             }
         }
         Op::Query => {
@@ -576,7 +568,7 @@ pub fn run_history(input: &[u8], cfg: &CfgBits, ops: &[Op], ambient_burn: u32, c
         Ok((Ok(m), calls)) => {
             t.steps.push(StepOut::Parsed { ok: true, err: String::new(), on_parse_calls: calls });
             let ids = collect_custom_ids(&m);
-            State { module: m, cfg: cfg.clone(), last_emit: None, custom_ids: ids, edit_state: Default::default() }
+            State { module: m, cfg: cfg.clone(), custom_ids: ids, edit_state: Default::default() }
         }
     };
     let mut dead = false;
@@ -587,9 +579,9 @@ pub fn run_history(input: &[u8], cfg: &CfgBits, ops: &[Op], ambient_burn: u32, c
         }
         let r = catch_unwind(AssertUnwindSafe(|| step(&mut st, op, ctx, i)));
         match r {
-            Ok(StepOut::Parsed { ok: false, err, on_parse_calls }) => {
+            Ok(StepOut::Reparsed { emitted, ok: false, err, on_parse_calls }) => {
                 // a failed re-parse ends the history (there is no module to continue on)
-                t.steps.push(StepOut::Parsed { ok: false, err, on_parse_calls });
+                t.steps.push(StepOut::Reparsed { emitted, ok: false, err, on_parse_calls });
                 dead = true;
             }
             Ok(o) => t.steps.push(o),
